@@ -1079,6 +1079,26 @@ func genC04(c *Ctx) {
 func genC06(c *Ctx) {
 	defer func() {
 		// many DISTINCT terms (thresholds of maps, counters, fixed arrays); every term must come back exactly once
+		for _, n := range []int{64, 65, 66, 100, 200, 257} {
+			// n distinct terms, then all of them again (a term first met late occurs a second time)
+			var p []string
+			for round := 0; round < 2; round++ {
+				for i := 0; i < n; i++ {
+					p = append(p, fmt.Sprintf("LicenseRef-t%d", i))
+				}
+			}
+			for _, op := range []string{" AND ", " OR "} {
+				e := strings.Join(p, op)
+				r, got := c.O(e)
+				if r == unknown {
+					continue
+				}
+				c.count("repeated_distinct_term_chains")
+				if r != "ok" || len(got) != n {
+					c.fail("ExtractLicenses", e, fmt.Sprintf("%s, %d terms", r, len(got)), fmt.Sprintf("%d distinct terms, each once", n), "the expression names n reference terms, each twice")
+				}
+			}
+		}
 		for _, t := range distinctChains([]int{17, 65, 130, 257, 300}) {
 			r, got := c.O(t.render(0, c.rng))
 			if r == unknown {
@@ -1477,12 +1497,18 @@ func genC07(c *Ctx) {
 		if !strings.HasPrefix(x, "LicenseRef-") {
 			variants = append(variants, x+"+", x+" WITH Classpath-exception-2.0", x+" WITH Bison-exception-2.2", x+"+ WITH Classpath-exception-2.0")
 		} else {
-			variants = append(variants, "DocumentRef-d:"+x, "DocumentRef-e:"+x)
+			variants = append(variants, "DocumentRef-d:"+x, "DocumentRef-e:"+x, "DocumentRef-D:"+x, "DocumentRef-d:LicenseRef-"+strings.ToUpper(x[11:]), "LicenseRef-"+strings.ToUpper(x[11:]), "DocumentRef-spdx-tool-1.2:"+x, "DocumentRef-SPDX-Tool-1.2:"+x)
 		}
 		for _, target := range variants {
 			for _, n := range []int{3, 9, 17, 40} {
 				for rep := 0; rep < 3; rep++ {
 					A := append([]string{}, variants...)
+					// entries that are duplicates only after parsing: other letter case, parentheses, spaces
+					for _, f := range []string{"Apache-2.0", "Zlib", "0BSD"} {
+						if c.rng.Intn(2) == 0 {
+							A = append(A, strings.ToLower(f), "("+f+")", " "+f+" ", f)
+						}
+					}
 					for len(A) < n {
 						A = append(A, c.rng.Pick(fillers))
 					}
